@@ -483,6 +483,46 @@ impl<'n> XmlName<'n> {
 
 ////////////////////////////////////////////////////////////////////////////////////////////////////
 
+/// Verification hooks (off in every normal build)
+#[cfg(any(kani, quick_xml_verif))]
+#[doc(hidden)]
+pub mod verif {
+    use super::simple_type::{verif_escape_item as escape_item, verif_escape_list as escape_list, QuoteTarget};
+    use super::{QuoteLevel, XmlName};
+    use std::borrow::Cow;
+
+    /// Does the serializer accept `name` as an element / attribute name?
+    pub fn xml_name_ok(name: &str) -> bool {
+        XmlName::try_from(name).is_ok()
+    }
+
+    fn target(code: u8) -> QuoteTarget {
+        match code {
+            0 => QuoteTarget::Text,
+            1 => QuoteTarget::DoubleQAttr,
+            _ => QuoteTarget::SingleQAttr,
+        }
+    }
+
+    fn level(code: u8) -> QuoteLevel {
+        match code {
+            0 => QuoteLevel::Full,
+            1 => QuoteLevel::Partial,
+            _ => QuoteLevel::Minimal,
+        }
+    }
+
+    /// The private escaping routine for an item of an `xs:list`
+    pub fn item(value: &str, target_code: u8, level_code: u8) -> Cow<str> {
+        escape_item(value, target(target_code), level(level_code))
+    }
+
+    /// The private escaping routine for text / attribute values
+    pub fn list(value: &str, target_code: u8, level_code: u8) -> Cow<str> {
+        escape_list(value, target(target_code), level(level_code))
+    }
+}
+
 pub(crate) enum Indent<'i> {
     /// No indent should be written before the element
     None,
